@@ -858,6 +858,12 @@ def gen_enum(rng, ix):
             inner_names = Names(rng)
             v.fields = gen_fields(rng, inner_names, "%sv%d" % (tag, vi))
             v.blocks = doc_blocks(rng, "%sv%d" % (tag, vi))
+            # explicit header/footer on the variant, for the slots the doc comment leaves empty
+            v.explicit = {}
+            if len(v.blocks) < 2 and rng.random() < 0.3:
+                v.explicit["header"] = "explicit header of %sv%d" % (tag, vi)
+            if len(v.blocks) < 3 and rng.random() < 0.3:
+                v.explicit["footer"] = "explicit footer of %sv%d" % (tag, vi)
             cname = v.cmd_name or kebab(vn)
             names.take_long(cname)
             vectors += vectors_for(v.fields, rng, [cname])
@@ -985,6 +991,9 @@ def enum_src(t):
                 ann.append("short('%s')" % v.short)
             if v.alias:
                 ann.append("long(%s)" % rust_str(v.alias))
+            for slot in ("header", "footer"):
+                if slot in v.explicit:
+                    ann.append("%s(%s)" % (slot, rust_str(v.explicit[slot])))
             # variant doc comment: blocks -> descr / header / footer of the subcommand
             doc = ""
             if v.blocks:
@@ -1005,8 +1014,13 @@ def enum_src(t):
             m += "    let %s = {\n" % ident
             for f in v.fields:
                 m += "        let %s = %s;\n" % (rid(f.name), f.manual_src())
-            calls = blocks_to_calls(v.blocks) if v.blocks else (
-                ".descr(%s)" % rust_str("\n".join(v.doc)) if v.doc else "")
+            if v.blocks:
+                calls = blocks_to_calls(v.blocks, v.explicit)
+            else:
+                calls = ".descr(%s)" % rust_str("\n".join(v.doc)) if v.doc else ""
+                for slot in ("header", "footer"):
+                    if slot in v.explicit:
+                        calls += ".%s(%s)" % (slot, rust_str(v.explicit[slot]))
             m += "        construct!(%s::%s { %s }).to_options()%s.command(%s)" % (
                 t.name, v.name, ", ".join(rid(f.name) for f in v.fields), calls,
                 rust_str(v.cmd_name or kebab(v.name)))
